@@ -35,7 +35,7 @@ using namespace mc;
 const char *mc_id = "C12";
 const char *mc_rule = "part A: DFS grid width 0..9 x id set (0, 2^k-1, 2^k, 2^k+1, all ids < 2^16 (thorough 2^18), all ids with <= 2 (thorough 3) non-zero bytes from {01,7f,80,ff}) x {id pointer, NULL}; "
                       "nontrivial = id occupies the most significant header byte or does not fit. "
-                      "part B: BFS over histories of arm/reply/context_reply/defer/handle reply/handle release/addref/unref x transport accepts|rejects on a fresh mpt_reply_deferrable context, "
+                      "part B: BFS over histories of arm (context width; in the :altarm jobs additionally once per history with id length 0, width-1, width+1, 4 or 5)/reply/context_reply/defer/handle reply/handle release/addref/unref x transport accepts|rejects on a fresh mpt_reply_deferrable context, "
                       "canonical-state dedupe; nontrivial = distinct (history, op) steps executed while a request is deferred, was rejected by the transport before, or a second request exists. "
                       "part C: DFS over 1..2 requests x {zero id, id} x 7 handler scripts x 2 open modes x {one by one, queued together} through mpt_stream_input on a socketpair; nontrivial = two requests or a script other than none/reply";
 
@@ -130,7 +130,7 @@ struct Mirror { void *send; void *ptr; uintptr_t ref; const void *mt_vptr; const
 // struct replyDataDelayed
 struct HMirror { const void *vptr; void *base; uint16_t max, len; uint8_t val[4]; };
 
-static int g_idlen = 4, g_R = 2, g_maxref = 2, g_depth = 0; static bool g_target = true;
+static int g_idlen = 4, g_R = 2, g_maxref = 2, g_depth = 0; static bool g_target = true, g_alt = false;
 static std::set<std::string> g_canon;      // harness-side copy of the visited set: tells at which history length new states still appear
 
 enum { ARMED, DEFERRED, ANSWERED, DROPPED };
@@ -282,7 +282,7 @@ struct Sys {
 	{
 		if (refs < 1 || (int) req.size() >= g_R) return false;
 		int len = g_idlen;
-		if (alt >= 0) { std::vector<int> a = alt_lens(); if (alt >= (int) a.size() || altused) return false; len = a[alt]; }
+		if (alt >= 0) { std::vector<int> a = alt_lens(); if (!g_alt || alt >= (int) a.size() || altused) return false; len = a[alt]; }
 		begin("arm", armed, true);
 		Req q; q.state = ARMED; q.accepted = 0; q.attempts = 0;
 		q.id.assign(len, 0);
@@ -648,6 +648,9 @@ void mc_jobs(Tier t, std::vector<std::string> &jobs)
 {
 	if (t == Quick) for (int l : quick_idlen) for (int tg = 1; tg >= 0; --tg) jobs.push_back(fmt("proto:idlen=%d:target=%d", l, tg));
 	else for (int l : thorough_idlen) for (int tg = 1; tg >= 0; --tg) jobs.push_back(fmt("proto:idlen=%d:target=%d", l, tg));
+	// same alphabet plus one arm attempt per history with a foreign id length (0, width-1, width+1, 4, 5), one request less
+	if (t == Quick) for (int l : quick_idlen) for (int tg = 1; tg >= 0; --tg) jobs.push_back(fmt("proto:idlen=%d:target=%d:altarm", l, tg));
+	else for (int l : thorough_idlen) for (int tg = 1; tg >= 0; --tg) jobs.push_back(fmt("proto:idlen=%d:target=%d:altarm", l, tg));
 	for (int w = 0; w <= 9; ++w) jobs.push_back(fmt("ids:w=%d", w));
 	for (int l : {1, 2, 4, 5, 8}) jobs.push_back(fmt("stream:idlen=%d", l));
 }
@@ -655,9 +658,10 @@ static int proto_setup(Tier t, const std::string &job)
 {
 	int l = 4, tg = 1;
 	sscanf(job.c_str(), "proto:idlen=%d:target=%d", &l, &tg);
-	g_idlen = l; g_target = tg != 0;
+	g_idlen = l; g_target = tg != 0; g_alt = job.find(":altarm") != std::string::npos;
 	// quick: two requests (three for the jobs idlen 1 and 3 with target), two metatype references; thorough: four requests, three references
-	g_R = t == Quick ? ((l == 1 || l == 3) && tg ? 3 : 2) : 4; g_maxref = t == Quick ? 2 : 3;
+	// jobs with the foreign-length arm letters: two (thorough three) requests
+	g_R = t == Quick ? ((l == 1 || l == 3) && tg && !g_alt ? 3 : 2) : (g_alt ? 3 : 4); g_maxref = t == Quick ? 2 : 3;
 	return t == Quick ? 16 : 24;
 }
 static void id_body(Run &r, ACnt &c, const std::string &job, const std::vector<uint64_t> &ids, Ctx &x)
@@ -711,6 +715,7 @@ void mc_explore(Run &r, const std::string &job)
 		"mpt_context_reply: Answer header + text delivered", "unref with remaining references detaches the transport", "deferred reply on detached transport dropped", "reply on detached transport dropped"};
 	static const char *need_n[] = {"armed", "deferred", "reply without target: nothing sent", "everything released: ledger checked"};
 	if (g_target) for (const char *k : need_t) r.require(k); else for (const char *k : need_n) r.require(k);
+	if (g_alt) { r.require("arm with a too long id refused, pending request untouched"); r.require("arm with an empty id accepted: nothing armed"); if (g_idlen > 1) r.require("armed with a shorter id than the context width"); }
 	std::vector<uint64_t> inits(1, 0);
 	g_canon.clear(); g_depth = depth;
 	bfs_histories<Sys>(r, inits, depth);
